@@ -42,7 +42,8 @@ class _Prog(nn.Module):
                 if 'pshape' in op:
                     pad = tuple(op['pshape'])
                 layer = Conv(op['cin'], op['cout'], ksz, stride=op['s'], padding=pad,
-                             dilation=dil, groups=groups, bias=op['bias'])
+                             dilation=dil, groups=groups, bias=op['bias'],
+                             padding_mode=op.get('pmode', 'zeros'))
                 if op.get('pit'):
                     layer = _user_pit_layer(layer, op)
                 self.add_module(op['name'], layer)
@@ -53,7 +54,8 @@ class _Prog(nn.Module):
                 self.add_module(op['name'], layer)
             elif k == 'bn':
                 BN = nn.BatchNorm2d if op['bdim'] == 2 else nn.BatchNorm1d
-                self.add_module(op['name'], BN(op['c'], affine=op.get('affine', True)))
+                self.add_module(op['name'], BN(op['c'], affine=op.get('affine', True),
+                                               eps=op.get('eps', 1e-5)))
             elif k == 'act' and op['kind'] in ('relu_mod', 'relu6_mod', 'drop', 'ident'):
                 m = {'relu_mod': nn.ReLU(), 'relu6_mod': nn.ReLU6(), 'drop': nn.Dropout(0.3),
                      'ident': nn.Identity()}[op['kind']]
@@ -268,6 +270,12 @@ class Builder:
         out = self.fresh()
         op = {'op': 'conv', 'name': name, 'src': src, 'out': out, 'cin': cin, 'cout': cout,
               'k': k, 'd': d, 's': s, 'bias': bias, 'pad': pad, 'dw': dw}
+        if self.dim == 2 and self.opts.get('pmodes') and k % 2 == 1:
+            # non-zero padding modes (only where the padding is non-empty and fits the input)
+            eff = d * (k - 1) // 2 if pad == 'same' else pad
+            if 0 < eff < min(shp[1], shp[2]) and rng.random() < 0.4:
+                op['pmode'] = rng.choice(['reflect', 'replicate', 'circular'])
+                self.features.add('padding-mode')
         if excluded:
             self.excluded.append(name)
             op['excluded'] = True
@@ -322,9 +330,14 @@ class Builder:
         bdim = 2 if len(shp) == 3 else 1
         name = self.lname('bn')
         out = self.fresh()
+        # eps is a hyper-parameter of the layer (not in the state_dict): a conversion or export that
+        # re-creates the BatchNorm must carry it over
+        eps = self.rng.choice([1e-5, 1e-5, 1e-3, 1e-2, 5e-2])
         self.emit({'op': 'bn', 'name': name, 'src': src, 'out': out, 'c': shp[0], 'bdim': bdim,
-                   'affine': True}, shp, self.origin[src])
+                   'affine': True, 'eps': eps}, shp, self.origin[src])
         self.features.add('bn')
+        if eps != 1e-5:
+            self.features.add('bn-eps')
         return out
 
     def act(self, src, kind=None):
@@ -719,7 +732,7 @@ def single_conv_program(K, d, position='middle', cin=2, cout=3, L=None, bias=Tru
     u = 'b'
     if bn:
         ops.append({'op': 'bn', 'name': 'tcbn', 'src': u, 'out': 'b1', 'c': co, 'bdim': 1,
-                    'affine': True})
+                    'affine': True, 'eps': [1e-5, 1e-3, 2e-2][(K + d + c) % 3]})
         u = 'b1'
     if position == 'residual':
         ops.append({'op': 'add', 'srcs': [u, t], 'kind': 'op', 'out': 'r'})
@@ -767,7 +780,7 @@ def reuse_program(rng, family='1d', same_size=True, with_bn=False):
     if with_bn:
         # the conv + BatchNorm *pair* is invoked twice
         bn = {'op': 'bn', 'name': 'sharedbn', 'c': co, 'bdim': 1 if family == '1d' else 2,
-              'affine': True}
+              'affine': True, 'eps': [1e-5, 1e-3, 2e-2][co % 3]}
         ops += [dict(bn, src='a0', out='n0'), dict(bn, src='a1', out='n1', reuse=True)]
     ops += [{'op': 'act', 'kind': 'relu_f', 'src': 'n0' if with_bn else 'a0', 'out': 'b0'},
            {'op': 'act', 'kind': 'relu_f', 'src': 'n1' if with_bn else 'a1', 'out': 'b1'},
@@ -875,7 +888,7 @@ def manual_program(rng, family):
            {'op': 'act', 'kind': 'relu_f', 'src': 'a', 'out': 'a2'},
            dict(base, name='p1', src='a2', out='b', cin=c1, cout=c2, pit=True, **kw),
            {'op': 'bn', 'name': 'bn1', 'src': 'b', 'out': 'b1', 'c': c2,
-            'bdim': 1 if family == '1d' else 2, 'affine': True},
+            'bdim': 1 if family == '1d' else 2, 'affine': True, 'eps': [1e-5, 1e-3, 2e-2][c2 % 3]},
            {'op': 'act', 'kind': 'relu_mod', 'name': 'act1', 'src': 'b1', 'out': 'b2'},
            dict(base, name='p2', src='b2', out='c', cin=c2, cout=c3, pit=True, **kw),
            {'op': 'act', 'kind': 'relu_t', 'src': 'c', 'out': 'c2'},
